@@ -39,7 +39,7 @@ prop('C19', harness='seqmon', floor=5000, batches={'quick': 1, 'thorough': 1}, s
      assumptions=['internal/seq is built from a staged copy of the working tree under its declared import path github.com/fogfish/golem/seq',
                   'Head/Tail are never applied to an empty sequence (ADT precondition)'])
 
-prop('C18', harness='skipmon', kind='test', floor=5000, batches={'quick': 4, 'thorough': 16}, stage=True, modes={'quick': ['plain', 'race'], 'thorough': ['plain', 'race']},
+prop('C18', harness='skipmon', kind='test', tags='verif', floor=5000, batches={'quick': 4, 'thorough': 16}, stage=True, modes={'quick': ['plain', 'race'], 'thorough': ['plain', 'race']},
      assumptions=['internal/maplike is built from a staged copy of the working tree under its declared import path',
                   'structure is read through the public fmt.Stringer dump; keys contain no whitespace so the dump parses unambiguously',
                   'every list is used by one goroutine only (the structure is not concurrent and the property does not ask); several owners, each with a private list, may work at the same time'])
